@@ -16,6 +16,7 @@ def judge (fam payload impl : String) : Verdict :=
   | "redis.split" => Redis.Driver.judgeRaw payload impl (splitMode := true)
   | "kfl.eval" => Kfl.Driver.judgeEval .truth payload impl
   | "kfl.frame" => Kfl.Driver.judgeEval .frame payload impl
+  | "kfl.redact" => Kfl.Driver.judgeRedact payload impl
   | "kfl.fuzz" => Kfl.Driver.judgeFuzz payload impl
   | "kfl.reuse" => Kfl.Driver.judgeEval .reuse payload impl
   | "kfl.macro" => Kfl.Macro.judge payload impl
